@@ -32,8 +32,8 @@ claimed.update({
  "C04": dict(text="Deductive proof that fold returns, for every node kind, either the node rebuilt from its folded children or - only when every child folded to a literal, the operator is not one that consults the request or the entity store, and evaluating exactly the evaluator ToEval would build on those literals succeeds - that literal result; per-operator lemmas then prove that this preserves the evaluation result on every environment given the same for the children, and three lemmas carry it along the conjunction PolicyToNode builds. foldPolicy is proved to work on a copy (frame + field-wise postcondition) and Compile to run exactly ToEval(PolicyToNode(foldPolicy(p))).",
              note="The structural induction over expression trees / condition lists that combines the per-node lemmas is applied outside the solver (each step is a discharged obligation, the schema is not). Extension calls, set and record literals: only the shape of the rebuilt node is proved, not the folded value. Text/JSON forms unchanged follows from the frame proof of foldPolicy/Compile (the stored AST is not written); the encoders themselves are not under contract.",
              ref="DESIGN.md §6 C04"),
- "C11": dict(text="Deductive proof of the per-type Equal methods against structural equality for the scalar value types, lemmas for reflexivity/symmetry/transitivity/type-distinction over those, the mapset container against its set view, and a frame proof that constructors/accessors of values copy what they are given or hand out (immutability).",
-             note="Set and Record equality are used through observer contracts (membership up to Equal, key/value lookup); the open-addressing hash layout of types.Set and the text/JSON round trip of equal values are not under contract. Laws are proved for scalar values and stated for composite values only via the observers.",
+ "C11": dict(text="Deductive proof (a) of the representation invariant of types.Set - an open-addressing hash table in a Go map with wrap-around probing - established by NewSet for every argument sequence and assumed for every Set value (NewSet is the only constructor), under which Set.Contains is exactly 'some stored value is Equal to x' and NewSet(v...) holds exactly the members of v up to Equal, without duplicates, whatever the order and repetitions; (b) of the per-type Equal methods against structural equality for the scalar value types with lemmas for reflexivity/symmetry/transitivity/type-distinction (incl. the hash-collision universe); (c) of the mapset container against its set view; (d) a frame proof that constructors/accessors of values copy what they are given or hand out (immutability).",
+             note="Assumed, not proved by the solver: Equal is an equivalence that agrees with hash on all values (proved for scalars; for nested sets/records by induction on depth, outside the solver). Not under contract: completeness of Set.Equal/Record.Equal (needs hash sums over equal sets), the cached hash of Record/Set, subset operators' cardinalities, text/JSON round trip of equal values. Termination of the probe loops is not proved.",
              ref="DESIGN.md §6 C11"),
  "C14": dict(text="Deductive proof that the map-backed encoders under contract (Record/Set MarshalCedar and MarshalJSON, PolicySet.MarshalCedar) emit their elements in sorted key order - sortedness and completeness of the key list asserted after the sort for every map iteration order - and that a record literal evaluates its attributes in sorted key order (first error is order-independent).",
              note="Only the order-determining step is proved; the bytes written for each element (fmt/strconv/encoding/json) are opaque to the contract logic. Determinism of Authorize's decision/reason/error sets is the C02 proof (set-based specification, independent of enumeration order). Entity map, schema and policy JSON encoders are not under contract.",
